@@ -44,8 +44,6 @@ def World.isHonest (w : World) (i : Nat) : Bool := decide (i < w.N) && !w.faulty
 def World.node (w : World) (i : Nat) : Node := (lookup i w.nodes).getD {}
 def World.setNode (w : World) (i : Nat) (n : Node) : World := { w with nodes := setKey i n w.nodes }
 
-def storedVer (c : Cand) (p : Nat) : Option Nat := (c.proposals.find? (·.proposer == p)).map (·.ver)
-
 /-- the endorser list of the participant configuration: every peer -/
 def allPeers (w : World) : List Nat := List.range w.N
 
